@@ -29,7 +29,7 @@ def bounded(text, note=""):
 CLAIMS = {
     "C01": mixed("PROVED for all inputs (unbounded dimension, arbitrary index sets): update_adaptive_combi / __refine_scheme / the query methods, symbolically executed from the "
                  "working tree, preserve the index-set invariant (entries>=lmin, old/active disjoint, backward neighbours old => downward closed, no active index with a forward "
-                 "neighbour) for refinable and non-refinable requests; Lean/Mathlib: for ANY finite index set the stencil coefficients of the grids dominating l sum to [l in I]. "
+                 "neighbour) for refinable and non-refinable requests; getCombiScheme on an adaptive object returns the scheme computed once for exactly old | active whatever lmin / lmax arguments are passed and changes nothing; Lean/Mathlib: for ANY finite index set the stencil coefficients of the grids dominating l sum to [l in I]. "
                  "BOUNDED: initialisation, closed-form scheme, and the link get_coefficients_to_index_set <-> Lean coeff function (exhaustive small universes).",
                  "Initialisation (getGrids recursion) and get_coefficients_to_index_set are covered by the bounded layer only."),
     "C02": mixed("PROVED: the real 1-D trapezoidal grid (set_current_area, level_to_num_points_1d, points/weights) returns as many points as it announces, inside the sub-box, "
